@@ -276,12 +276,12 @@ func c35ParseTrace(trace string) []c35Call {
 		if k < i {
 			continue
 		}
-		calls = append(calls, c35Call{name: rest[:i], args: rest[i+1 : k], ret: strings.TrimSpace(rest[j+3:])})
+		calls = append(calls, c35Call{name: rest[:i], args: strings.TrimSpace(rest[i+1 : k]), ret: strings.TrimSpace(rest[j+3:])})
 	}
 	// calls the tracee died in (never resumed)
 	for _, p := range pending {
 		if i := strings.IndexByte(p, '('); i > 0 {
-			calls = append(calls, c35Call{name: p[:i], args: p[i+1:], ret: "?"})
+			calls = append(calls, c35Call{name: p[:i], args: strings.TrimSpace(p[i+1:]), ret: "?"})
 		}
 	}
 	return calls
@@ -937,7 +937,7 @@ func c35GenCase(r *Rand, i int, xdev bool, thorough bool) c35Case {
 		cs.old = "echo already formatted\n"
 	}
 	// quick: every boundary for the first few files, a sample for the rest; thorough: every boundary
-	cs.sample = !thorough && i >= 6
+	cs.sample = !thorough && i >= 2
 	return cs
 }
 
